@@ -14,6 +14,8 @@ SPEC = Spec(
                 test="TestVerifC02Persistent", driver="drv_c02", go="go1.26", n={"quick": 4000, "thorough": 60000}, timeout_s=1500),
         Harness(name="soak", module="exporter", pkg=_PKG, files={"zz_verif_c02_soak_test.go": "c02/soak_test.go", "zz_verif_c02_queue_test.go": "c02/queue_test.go"},
                 test="TestVerifC02Soak", driver="drv_c02", go="go1.26", n={"quick": 300, "thorough": 30000}, timeout_s=1500),
+        Harness(name="config", module="exporter", pkg="exporter/exporterhelper/internal", files={"zz_verif_c02_config_test.go": "c02/config_test.go"},
+                test="TestVerifC02Config", driver="drv_c02", go="go1.26", n={"quick": 1500, "thorough": 30000}, timeout_s=1500),
     ],
     rule="cond: the real cond with a scheduler-controlled sync.Locker in a synctest bubble; random schedules of start/grant/cancel over "
          "1-4 waiters and 1-4 signallers/broadcasters (4-32 labels + a finishing phase; corpus cases 0-1 = the design-phase deadlock "
